@@ -50,9 +50,9 @@ type Plan struct {
 }
 
 var rec = ev.New("C19", "c19.churn",
-	"plans of 3..25 operations (subscribe, cancel with/without waiting for the handler to exit, stall a reader, broadcast, bursts of 3-120 broadcasts back to back, park/release deliveries at the verif hook's yield point, pause) over up to 5 clients of one sse.Handler, each plan executed in its own child process (a panic in a delivery goroutine cannot be recovered) built with -race; "+
+	"plans of 3..25 operations (subscribe, cancel with/without waiting for the handler to exit, stall a reader, broadcast, bursts of 3-120 broadcasts back to back, several broadcasters sending concurrently, park/release deliveries at the verif hook's yield point, pause) over up to 5 clients of one sse.Handler, each plan executed in its own child process (a panic in a delivery goroutine cannot be recovered) built with -race; "+
 		"oracle: the child survives with no panic/race/deadlock, every Send returns within 2 s, and every client that was registered and neither cancelled nor stalled receives every event broadcast while it was registered (as a multiset: order between back-to-back broadcasts is not promised). "+
-		"Non-trivial = the plan cancels a client between a broadcast whose delivery is parked and its release (the 'unregistered before delivery' schedule, forced), or broadcasts while a client is stalled; distinct by plan")
+		"Non-trivial = the plan cancels a client between a broadcast whose delivery is parked and its release (the 'unregistered before delivery' schedule, forced), broadcasts while a client is stalled, or has several broadcasters send at once to two or more clients; distinct by plan")
 
 // ---------- the child: executes one plan ----------
 
@@ -192,6 +192,45 @@ func runPlan(p Plan) (result string) {
 					return fmt.Sprintf("fail:step %d: Send blocked for more than 2s", si)
 				}
 			}
+		case "cosend":
+			// several broadcasters at once (the watcher's own reload next to POSTs to
+			// /_templ/reload/events from --notify-proxy): st.N goroutines, each sending 8 events
+			senders := max(2, st.N)
+			var names [][]string
+			for g := 0; g < senders; g++ {
+				var mine []string
+				for k := 0; k < 8; k++ {
+					sendN++
+					name := fmt.Sprintf("reload-%d", sendN)
+					mine = append(mine, name)
+					for i := range clients {
+						if active(i) {
+							expect[i] = append(expect[i], name)
+						}
+					}
+				}
+				names = append(names, mine)
+			}
+			start := make(chan struct{})
+			var wg sync.WaitGroup
+			for _, mine := range names {
+				wg.Add(1)
+				go func() {
+					defer wg.Done()
+					<-start
+					for _, name := range mine {
+						h.Send("message", name)
+					}
+				}()
+			}
+			close(start)
+			done := make(chan struct{})
+			go func() { wg.Wait(); close(done) }()
+			select {
+			case <-done:
+			case <-time.After(5 * time.Second):
+				return fmt.Sprintf("fail:step %d: concurrent Sends blocked for more than 5s", si)
+			}
 		case "park":
 			gateMu.Lock()
 			if gate == nil {
@@ -323,10 +362,13 @@ func init() {
 }
 
 var genStep = rapid.Custom(func(t *rapid.T) Step {
-	op := rapid.SampledFrom([]string{"sub", "sub", "sub", "cancel", "cancel", "stall", "send", "send", "send", "park", "release", "pause", "burst"}).Draw(t, "op")
+	op := rapid.SampledFrom([]string{"sub", "sub", "sub", "cancel", "cancel", "stall", "send", "send", "send", "park", "release", "pause", "burst", "cosend"}).Draw(t, "op")
 	st := Step{Op: op, Client: rapid.IntRange(0, 4).Draw(t, "client"), Wait: rapid.Bool().Draw(t, "wait")}
 	if op == "burst" {
 		st.N = rapid.SampledFrom([]int{3, 9, 12, 40, 120}).Draw(t, "burst")
+	}
+	if op == "cosend" {
+		st.N = rapid.IntRange(2, 6).Draw(t, "senders")
 	}
 	return st
 })
@@ -363,6 +405,10 @@ func nontrivial(p Plan) bool {
 		case "stall":
 			if live[st.Client] {
 				stalled[st.Client] = true
+			}
+		case "cosend":
+			if len(live) > 1 {
+				return true
 			}
 		case "send", "burst":
 			if parked && len(live) > 0 {
